@@ -11,3 +11,18 @@ package types
 //@ ensures [signer] result == nil ==> va.1 == nil && sdk.AccAddress(va.0).String() == signer
 //@ ensures [mismatch] va.1 == nil && sdk.AccAddress(va.0).String() != signer ==> result != nil
 //@ ensures [bad-address] va.1 != nil ==> result != nil
+
+// JSON decoding of the key string is outside the modelled subset: its result is an uninterpreted deterministic function of the string
+//@ func ParseConsumerKeyFromJson pure modular trusted
+
+//@ func MsgAssignConsumerKey.ValidateBasic
+//@ ensures [signer-is-validator] result == nil ==> validateProviderAddress(msg.ProviderAddr, msg.Signer) == nil
+
+//@ func MsgOptIn.ValidateBasic
+//@ ensures [signer-is-validator] result == nil ==> validateProviderAddress(msg.ProviderAddr, msg.Signer) == nil
+
+//@ func MsgOptOut.ValidateBasic
+//@ ensures [signer-is-validator] result == nil ==> validateProviderAddress(msg.ProviderAddr, msg.Signer) == nil
+
+//@ func MsgSetConsumerCommissionRate.ValidateBasic
+//@ ensures [signer-is-validator] result == nil ==> validateProviderAddress(msg.ProviderAddr, msg.Signer) == nil
